@@ -222,6 +222,10 @@ def set_binop(kind, a, b, facts):
     if kind in ("difference", "intersection"):
         facts.append(V.set_card(r) <= V.set_card(a))
         facts.extend(facts_for_card(a))
+        if kind == "difference":       # finite-set facts: |A - B| >= |A| - |B|, with equality when B is a subset of A
+            facts.extend(facts_for_card(b))
+            facts.append(V.set_card(r) >= V.set_card(a) - V.set_card(b))
+            facts.append(z3.Implies(set_subset(b, a), V.set_card(r) == V.set_card(a) - V.set_card(b)))
     else:
         facts.append(V.set_card(r) >= V.set_card(a))
         facts.append(V.set_card(r) >= V.set_card(b))
